@@ -66,7 +66,7 @@ func VerifC02_Dlanhs() {
 
 // VerifC02_Dlangt: norms of the general tridiagonal matrix (dl, d, du).
 func VerifC02_Dlangt() {
-	n := verifChoose("n", 0, verifParam("gtnormn", 5))
+	n := verifChoose("n", 0, verifParam("gtnormn", 4))
 	norm := verifC02normKind("norm")
 	slack := verifChoose("slack", 0, 1)
 	nm1 := verifC02max(n-1, 0)
